@@ -20,13 +20,19 @@ CLAIMS = {
 OPTIONAL_CLAIMS = ('C06.glob',)
 GOALS = {'quick': ['two port variables on one node', 'dotdot in a path',
                    '_path dictionary port', 'glob port', 'scalar port',
-                   'nested schema port'],
+                   'nested schema port', 'glob below a glob',
+                   'inner glob child declared by a process'],
          'thorough': ['two port variables on one node', 'dotdot in a path',
                       '_path dictionary port', 'glob port', 'scalar port',
-                      'nested schema port']}
+                      'nested schema port', 'glob below a glob',
+                      'inner glob child declared by a process']}
 STUBS = ['one process whose ports schema / topology are produced by a generator '
          'driven by solver-decided choices; it records the states of its first '
-         'invocation and returns symbolic updates for every port variable']
+         'invocation and returns symbolic updates for every port variable',
+         'glob-below-glob job: three such processes (environment globbing the '
+         'compartments, a process in a compartment globbing a store of that '
+         'compartment, a process below that store declaring a child); '
+         'presence, declaration order, child origin and values symbolic']
 ASSUMPTIONS = [
     'well-formed topologies only: no node is at once a leaf target and a '
     'branch of another target (such combinations are skipped and counted)',
@@ -69,10 +75,110 @@ def jobs(tier):
                             k0=k0, nports=3 if (not q or depth == 0) else 2,
                             budget_s=100 if q else 1500,
                             crosscheck=0 if q else 20))
+    out.append(dict(name='glob-below-glob', part='globglob',
+                    budget_s=100 if q else 600))
     return out
 
 
+def globglob(ctx, cfg):
+    """Several processes: a glob port over a store that lies below another
+    globbed store; the inner children are declared by a third process or come
+    from the initial state; declaration order decided by the solver."""
+    with_env = ctx.flag('env')
+    from_proc = ctx.flag('childproc')
+    from_init = ctx.flag('childinit')
+    named = ctx.flag('named')       # glob nested in a named port / '*' port key
+    order = ctx.choice('order', 3)
+    env = P({'agents': {'*': {'mass': {'_default': 1}}}})
+    if named:
+        nucleus = P({'shells': {'*': {'charge': {'_default': 2}}}})
+        ntopo = {'shells': ('shells',)}
+    else:
+        nucleus = P({'*': {'charge': {'_default': 2}}})
+        ntopo = {'*': ('shells',)}
+    electron = P({'spin': {'value': {'_default': 3}}})
+    a1 = [('nucleus', nucleus)]
+    a1_t = {'nucleus': ntopo}
+    if from_proc:
+        a1.append(('shells', {'s1': {'electron': electron}}))
+        a1_t['shells'] = {'s1': {'electron': {'spin': ('spin',)}}}
+        ctx.goal('inner glob child declared by a process')
+    if order == 1:
+        a1.reverse()
+    top = [('agents', {'a1': dict(a1)})]
+    topology = {'agents': {'a1': a1_t}}
+    if with_env:
+        top.append(('env', env))
+        topology['env'] = {'agents': ('agents',)}
+        ctx.goal('glob below a glob')
+    if order == 2:
+        top.reverse()
+    init = {}
+    iv = {}
+    children = []
+    if from_proc:
+        children.append('s1')
+    if from_init:
+        children.append('s2')
+        iv[('agents', 'a1', 'shells', 's2', 'charge')] = ctx.int('v', -9, 9)
+        put(init, ('agents', 'a1', 'shells', 's2', 'charge'),
+            iv[('agents', 'a1', 'shells', 's2', 'charge')])
+    if from_proc and ctx.flag('s1init'):
+        iv[('agents', 'a1', 'shells', 's1', 'charge')] = ctx.int('v', -9, 9)
+        put(init, ('agents', 'a1', 'shells', 's1', 'charge'),
+            iv[('agents', 'a1', 'shells', 's1', 'charge')])
+    if with_env and ctx.flag('massinit'):
+        iv[('agents', 'a1', 'mass')] = ctx.int('v', -9, 9)
+        put(init, ('agents', 'a1', 'mass'), iv[('agents', 'a1', 'mass')])
+    ups = {}
+    key = 'shells' if named else None
+    for c in children:
+        ups[c] = ctx.int('u', -9, 9)
+    nupd = {c: {'charge': ups[c]} for c in children}
+    nucleus.upd = {'shells': nupd} if named else nupd
+    um = ctx.int('u', -9, 9)
+    env.upd = {'agents': {'a1': {'mass': um}}}
+    info = lambda: dict(with_env=with_env, from_proc=from_proc,
+                        from_init=from_init, named=named, order=order,
+                        initial=init)
+    e = Engine(processes=dict(top), topology=topology, initial_state=init,
+               display_info=False, emitter='null')
+    e.update(1)
+    final = e.state.get_value()
+    st = nucleus.seen['shells'] if named else nucleus.seen
+    ctx.claim('C06.glob', sorted(st.keys()) == sorted(children) and all(
+        sorted(st[c].keys()) == ['charge'] for c in st), sig='glob-below-glob',
+        info=info)
+    read, write = [], []
+    for c in children:
+        n = ('agents', 'a1', 'shells', c, 'charge')
+        start = iv.get(n, 2)
+        if c in st and 'charge' in st[c]:
+            read.append(EQ(st[c]['charge'], start))
+        else:
+            read.append(False)
+        write.append(EQ(get(final, n, None), start + ups[c]))
+        ctx.observe(c, get(final, n, None))
+    if with_env:
+        n = ('agents', 'a1', 'mass')
+        start = iv.get(n, 1)
+        try:
+            read.append(EQ(env.seen['agents']['a1']['mass'], start))
+        except KeyError:
+            read.append(False)
+        write.append(EQ(get(final, n, None), start + um))
+    if from_proc:
+        try:
+            read.append(EQ(electron.seen['spin']['value'], 3))
+        except KeyError:
+            read.append(False)
+    ctx.claim('C06.read', AND(read), sig='read-glob-below-glob', info=info)
+    ctx.claim('C06.write', AND(write), sig='write-glob-below-glob', info=info)
+
+
 def body(ctx, cfg):
+    if cfg.get('part') == 'globglob':
+        return globglob(ctx, cfg)
     depth = cfg['depth']
     parent = [(), ('agents',), ('agents', 'a1')][depth]
     schema, topo = {}, {}
